@@ -4,12 +4,14 @@
 import ShelxModel.C20
 import ShelxModel.Extracted.C20Src
 import ShelxProps.Lemmas.C20Jacobi
+import ShelxProps.Lemmas.C20Heap
 import Mathlib.Tactic.Ring
 import Mathlib.Tactic.Linarith
 import Mathlib.Tactic.LinearCombination
 import Mathlib.Tactic.NormNum
 import Mathlib.Tactic.FieldSimp
 import Mathlib.Data.Real.Basic
+import Mathlib.Analysis.Real.Sqrt
 
 namespace Shelx.C20
 
@@ -409,6 +411,577 @@ theorem rot_params_ok (b dma t r : ℝ) (hr : r * r = t * t + 1) (hr0 : r ≠ 0)
 example : ((3:ℝ)/5) * (3/5) + (4/5) * (4/5) = 1 ∧ (((3:ℝ)/5) * (3/5) - (4/5) * (4/5)) * 12 - (3/5) * (4/5) * (-7) = 0 := by
   norm_num
 
+/-! ### the whole Jacobi iteration, with the rotation parameters the code computes (all inputs)
+
+  `jacobi_step_invariant` asks for `c² + s² = 1` and for the annihilation equation. Below they are discharged for the
+  `t`, `c`, `s` that `jacobi` itself computes, in EVERY branch: `fabs(b) > 0` false (no rotation), the `b / dma` branch (over
+  the reals never taken when `|b| > 0`), `q < 0`, `q > 0` and `q = 0` (equal diagonal elements: `t = +1`, a turn by 45
+  degrees — with `t = 0` there the element would be dropped without a rotation and the invariant would break).
+  Hence the invariant holds after any number of sweeps, the final column sort keeps `VᵀV = 1`, and `qtrfit` returns a
+  unit quaternion and a proper rotation for all inputs. `sqrt` is a parameter; only `sqrt x ≥ 0`, `sqrt x · sqrt x = x`
+  (for `x ≥ 0`) is used. -/
+
+noncomputable def rops (sqrt : ℝ → ℝ) : JOps ℝ :=
+  { abs := fun x => |x|, sqrt := sqrt, lt := fun a b => decide (a < b), le := fun a b => decide (a ≤ b),
+    isZero := fun a => decide (a = 0), half := 1 / 2, eps := 1 / 1000000000000 }
+
+def IsSqrt (sqrt : ℝ → ℝ) : Prop := ∀ x, 0 ≤ x → 0 ≤ sqrt x ∧ sqrt x * sqrt x = x
+
+theorem tangent_aux (a r : ℝ) (ha : 0 ≤ a) (hr : 0 < r) (hrr : r * r = 1 + a * a) :
+    (1 / (a + r)) * (1 / (a + r)) + 2 * a * (1 / (a + r)) - 1 = 0 := by
+  have hD : a + r ≠ 0 := by positivity
+  field_simp
+  nlinarith
+
+theorem code_tangent_root (sqrt : ℝ → ℝ) (hs : IsSqrt sqrt) (b dma : ℝ) (hb : b ≠ 0) :
+    b * (if 1 / 2 * dma / b < 0 then -(1 / (|1 / 2 * dma / b| + sqrt (1 + 1 / 2 * dma / b * (1 / 2 * dma / b))))
+          else 1 / (|1 / 2 * dma / b| + sqrt (1 + 1 / 2 * dma / b * (1 / 2 * dma / b))))
+      * (if 1 / 2 * dma / b < 0 then -(1 / (|1 / 2 * dma / b| + sqrt (1 + 1 / 2 * dma / b * (1 / 2 * dma / b))))
+          else 1 / (|1 / 2 * dma / b| + sqrt (1 + 1 / 2 * dma / b * (1 / 2 * dma / b))))
+      + dma * (if 1 / 2 * dma / b < 0 then -(1 / (|1 / 2 * dma / b| + sqrt (1 + 1 / 2 * dma / b * (1 / 2 * dma / b))))
+          else 1 / (|1 / 2 * dma / b| + sqrt (1 + 1 / 2 * dma / b * (1 / 2 * dma / b)))) - b = 0 := by
+  generalize hqd : 1 / 2 * dma / b = q
+  have hq : dma = 2 * q * b := by rw [← hqd]; field_simp
+  obtain ⟨hr0, hrr⟩ := hs (1 + q * q) (by nlinarith [mul_self_nonneg q])
+  generalize sqrt (1 + q * q) = r at hr0 hrr
+  have hrpos : 0 < r := by
+    rcases lt_or_eq_of_le hr0 with h | h
+    · exact h
+    · rw [← h] at hrr; nlinarith [mul_self_nonneg q]
+  have h0 := tangent_aux |q| r (abs_nonneg q) hrpos (by rw [hrr, abs_mul_abs_self])
+  by_cases hneg : q < 0
+  · rw [if_pos hneg, hq]
+    rw [abs_of_neg hneg] at h0 ⊢
+    linear_combination b * h0
+  · rw [if_neg hneg, hq]
+    rw [abs_of_nonneg (not_lt.mp hneg)] at h0 ⊢
+    linear_combination b * h0
+
+theorem rotIf_invariant (sqrt : ℝ → ℝ) (hs : IsSqrt sqrt) (n0 : Nat → Nat → ℝ) (i j : Nat) (hij : i < j) (hj : j < 4)
+    (st : JState ℝ) (hinv : JInv n0 st) : JInv n0 (rotIf (rops sqrt) i j st) := by
+  unfold rotIf
+  simp only [rops, decide_eq_true_eq]
+  by_cases hb : (0:ℝ) < |st.a i j|
+  · have hb0 : st.a i j ≠ 0 := abs_pos.mp hb
+    have hbranch : ¬ (|st.d j - st.d i| + |st.a i j| ≤ |st.d j - st.d i|) := by linarith
+    rw [if_pos hb, if_neg hbranch]
+    have ht := code_tangent_root sqrt hs (st.a i j) (st.d j - st.d i) hb0
+    generalize (if 1 / 2 * (st.d j - st.d i) / st.a i j < 0 then
+        -(1 / (|1 / 2 * (st.d j - st.d i) / st.a i j| + sqrt (1 + 1 / 2 * (st.d j - st.d i) / st.a i j * (1 / 2 * (st.d j - st.d i) / st.a i j))))
+      else 1 / (|1 / 2 * (st.d j - st.d i) / st.a i j| + sqrt (1 + 1 / 2 * (st.d j - st.d i) / st.a i j * (1 / 2 * (st.d j - st.d i) / st.a i j)))) = t at ht
+    obtain ⟨hr0, hrr⟩ := hs (t * t + 1) (by nlinarith [mul_self_nonneg t])
+    have hrne : sqrt (t * t + 1) ≠ 0 := by
+      intro h; rw [h] at hrr; nlinarith [mul_self_nonneg t]
+    obtain ⟨h1, h2⟩ := rot_params_ok (st.a i j) (st.d j - st.d i) t (sqrt (t * t + 1)) hrr hrne ht
+    exact jacobi_step_invariant n0 i j hij hj _ _ st h1 h2 hinv
+  · rw [if_neg hb]; exact hinv
+
+
+theorem foldl_inv {α β : Type} (P : β → Prop) (f : β → α → β) (l : List α) (b : β)
+    (h : ∀ x ∈ l, ∀ s, P s → P (f s x)) (hb : P b) : P (l.foldl f b) := by
+  induction l generalizing b with
+  | nil => exact hb
+  | cons x t ih =>
+    simp only [List.foldl_cons]
+    exact ih _ (fun y hy s hs => h y (List.mem_cons_of_mem _ hy) s hs) (h x (List.mem_cons_self ..) b hb)
+
+theorem sweep_invariant (sqrt : ℝ → ℝ) (hs : IsSqrt sqrt) (n0 : Nat → Nat → ℝ) (st : JState ℝ) (hinv : JInv n0 st) :
+    JInv n0 (sweep (rops sqrt) st) := by
+  unfold sweep
+  apply foldl_inv (JInv n0) _ _ _ _ hinv
+  intro j hjm s hsI
+  have hj : j < 4 := by
+    have := List.mem_range'_1.mp hjm; omega
+  apply foldl_inv (JInv n0) _ _ _ _ hsI
+  intro i him s' hs'
+  exact rotIf_invariant sqrt hs n0 i j (List.mem_range.mp him) hj s' hs'
+
+theorem jacobiLoop_invariant (sqrt : ℝ → ℝ) (hs : IsSqrt sqrt) (n0 : Nat → Nat → ℝ) (fuel : Nat) (st st' : JState ℝ)
+    (hinv : JInv n0 st) (h : jacobiLoop (rops sqrt) fuel st = some st') : JInv n0 st' := by
+  induction fuel generalizing st with
+  | zero => simp only [jacobiLoop, Option.some.injEq] at h; exact h ▸ hinv
+  | succ n ih =>
+    unfold jacobiLoop at h
+    simp only at h
+    split at h
+    · simp only [Option.some.injEq] at h; exact h ▸ hinv
+    · exact ih _ (sweep_invariant sqrt hs n0 st hinv) h
+
+/-- the start of `jacobi`: `eigenvect` = unit matrix, `eigenval` = the diagonal -/
+theorem jacobi_init_invariant (n : S4 ℝ) :
+    JInv (symOf (matOfS4 n) ⟨fun j => matOfS4 n j j⟩)
+      { a := matOfS4 n, v := ⟨fun r c => if r = c then 1 else 0⟩, d := ⟨fun j => matOfS4 n j j⟩ } := by
+  constructor
+  · intro r k hr hk
+    interval_cases r <;> interval_cases k <;> simp [mul4, tr4]
+  · intro r k hr hk
+    interval_cases r <;> interval_cases k <;> simp [mul4, tr4, delta4]
+
+
+/-- `VᵀV = 1` -/
+def Orth (v : Mat ℝ) : Prop := ∀ r k, r < 4 → k < 4 → mul4 (tr4 (fun p q => v p q)) (fun p q => v p q) r k = delta4 r k
+
+theorem swapCols_orth (v : Mat ℝ) (k j : Nat) (hjk : j < k) (hk : k < 4) (h : Orth v) : Orth (swapCols v k j) := by
+  intro r c hr hc
+  have e : ∀ p, p < 4 → ∀ x, x < 4 → swapCols v k j p x = v p (if x = k then j else if x = j then k else x) :=
+    fun p hp x hx => swapCols_entry v k j hjk hk p x hp hx
+  simp only [mul4, tr4, e 0 (by omega) r hr, e 1 (by omega) r hr, e 2 (by omega) r hr, e 3 (by omega) r hr,
+    e 0 (by omega) c hc, e 1 (by omega) c hc, e 2 (by omega) c hc, e 3 (by omega) c hc]
+  have hj4 : j < 4 := by omega
+  have := h (if r = k then j else if r = j then k else r) (if c = k then j else if c = j then k else c)
+    (by split <;> [omega; (split <;> omega)]) (by split <;> [omega; (split <;> omega)])
+  simp only [mul4, tr4] at this
+  rw [this]
+  simp only [delta4]
+  split_ifs <;> first | rfl | omega
+
+
+theorem sortEig_orth (ops : JOps ℝ) (st : JState ℝ) (h : Orth st.v) : Orth (sortEig ops st).v := by
+  unfold sortEig
+  apply foldl_inv (fun s : JState ℝ => Orth s.v) _ _ _ _ h
+  intro j hjm s hs
+  have hj : j < 3 := List.mem_range.mp hjm
+  have hk : ((List.range' (j + 1) (4 - (j + 1))).foldl (fun (kd : Nat × ℝ) i =>
+      if ops.lt (s.d i) kd.2 then (i, s.d i) else kd) (j, s.d j)).1 < 4 := by
+    apply foldl_inv (fun kd : Nat × ℝ => kd.1 < 4)
+    · intro i him kd hkd
+      have := List.mem_range'_1.mp him
+      split
+      · show i < 4; omega
+      · exact hkd
+    · show j < 4; omega
+  simp only
+  split
+  · rename_i hgt
+    exact swapCols_orth s.v _ j hgt hk hs
+  · exact hs
+
+/-- **jacobi_orthonormal**: for EVERY symmetric 4×4 input and every sweep limit the matrix of eigenvectors that `jacobi`
+    returns is orthogonal — whatever the branch taken at each element (equal diagonal elements, q = 0, included) -/
+theorem jacobi_orthonormal (sqrt : ℝ → ℝ) (hs : IsSqrt sqrt) (n : S4 ℝ) (maxsweeps : Nat) (st : JState ℝ)
+    (h : jacobi (rops sqrt) n maxsweeps = some st) : Orth st.v := by
+  unfold jacobi at h
+  simp only [Option.map_eq_some_iff] at h
+  obtain ⟨st0, h0, rfl⟩ := h
+  exact sortEig_orth _ _ (jacobiLoop_invariant sqrt hs _ maxsweeps _ st0 (jacobi_init_invariant n) h0).2
+
+/-- **qtrfit_proper**: over the reals `qtrfit` returns a unit quaternion and a proper rotation for ALL inputs
+    (any two point lists, any number of sweeps) -/
+theorem qtrfit_proper (sqrt : ℝ → ℝ) (hs : IsSqrt sqrt) (src tgt : List (P3 ℝ)) (maxsweeps : Nat) (q : Q4 ℝ) (u : M3 ℝ)
+    (h : qtrfit (rops sqrt) src tgt maxsweeps = some (q, u)) : qnorm2 q = 1 ∧ IsProper u := by
+  unfold qtrfit at h
+  split at h
+  · exact absurd h (by simp)
+  · rename_i n _
+    split at h
+    · exact absurd h (by simp)
+    · rename_i st hst
+      simp only [Option.some.injEq, Prod.mk.injEq] at h
+      obtain ⟨rfl, rfl⟩ := h
+      have ho := jacobi_orthonormal sqrt hs n maxsweeps st hst 3 3 (by omega) (by omega)
+      have hq : qnorm2 (⟨st.v 0 3, st.v 1 3, st.v 2 3, st.v 3 3⟩ : Q4 ℝ) = 1 := by
+        simp only [mul4, tr4, delta4] at ho
+        simp only [qnorm2]
+        simpa using ho
+      exact ⟨hq, qtrfit_matrix_proper _ hq⟩
+
+/-! ### the unit of length does not matter (all inputs)
+
+  The property is invariant under a change of the unit of length. For the model this is a theorem: every comparison
+  `jacobi` makes — `fabs(b) > 0`, `fabs(dma) + fabs(b) <= fabs(dma)`, `q < 0`, the convergence test
+  `onorm <= 1e-12 * dnorm`, the comparisons of the final sort — is homogeneous, so multiplying the 4×4 form by `k > 0`
+  multiplies `matrix`/`eigenval` by `k` in every state and leaves `eigenvect` as it is. (A convergence test with an absolute
+  floor, `1e-12 * max(dnorm, 1.0)`, is not homogeneous and would not pass `jacobiLoop_sc`.) -/
+
+def scM (k : ℝ) (a : Mat ℝ) : Mat ℝ := ⟨fun r c => k * a r c⟩
+def scV (k : ℝ) (d : Vec ℝ) : Vec ℝ := ⟨fun i => k * d i⟩
+def scSt (k : ℝ) (st : JState ℝ) : JState ℝ := { a := scM k st.a, v := st.v, d := scV k st.d }
+
+theorem upd_sc (k : ℝ) (a : Mat ℝ) (r c : Nat) (x y : ℝ) (h : y = k * x) : upd (scM k a) r c y = scM k (upd a r c x) := by
+  subst h
+  simp only [upd, scM]
+  congr 1
+  funext r' c'
+  split <;> rfl
+
+theorem updV_sc (k : ℝ) (d : Vec ℝ) (i : Nat) (x y : ℝ) (h : y = k * x) : updV (scV k d) i y = scV k (updV d i x) := by
+  subst h
+  simp only [updV, scV]
+  congr 1
+  funext i'
+  split <;> rfl
+
+theorem foldl_comm {α β : Type} (g : β → β) (f : β → α → β) (l : List α) (b : β)
+    (h : ∀ s x, f (g s) x = g (f s x)) : l.foldl f (g b) = g (l.foldl f b) := by
+  induction l generalizing b with
+  | nil => rfl
+  | cons x t ih => simp only [List.foldl_cons]; rw [h, ih]
+
+theorem scM_apply (k : ℝ) (a : Mat ℝ) (r c : Nat) : (scM k a) r c = k * a r c := rfl
+theorem scV_apply (k : ℝ) (d : Vec ℝ) (i : Nat) : (scV k d) i = k * d i := rfl
+
+theorem jacobiRot_sc (k : ℝ) (i j : Nat) (c s b : ℝ) (st : JState ℝ) :
+    jacobiRot i j c s (k * b) (scSt k st) = scSt k (jacobiRot i j c s b st) := by
+  unfold jacobiRot
+  simp only [scSt]
+  have h0 : upd (scM k st.a) i j 0 = scM k (upd st.a i j 0) := upd_sc k _ _ _ _ _ (by ring)
+  rw [h0]
+  congr 1
+  · rw [foldl_comm (scM k), foldl_comm (scM k), foldl_comm (scM k)] <;>
+    · intro a x
+      simp only [scM, upd, Mat.mk.injEq]
+      funext r' c'
+      split_ifs <;> ring
+  · simp only [scV_apply]
+    rw [updV_sc k st.d j (s * s * st.d i + c * c * st.d j + 2 * c * s * b) _ (by ring)]
+    rw [updV_sc k _ i (c * c * st.d i + s * s * st.d j - 2 * c * s * b) _ (by ring)]
+
+
+theorem rotIf_sc (sqrt : ℝ → ℝ) (k : ℝ) (hk : 0 < k) (i j : Nat) (st : JState ℝ) :
+    rotIf (rops sqrt) i j (scSt k st) = scSt k (rotIf (rops sqrt) i j st) := by
+  have hk0 : k ≠ 0 := ne_of_gt hk
+  have hd : (scSt k st).d j - (scSt k st).d i = k * (st.d j - st.d i) := by
+    show k * st.d j - k * st.d i = _; ring
+  have hb : (scSt k st).a i j = k * st.a i j := rfl
+  have habs : ∀ x : ℝ, |k * x| = k * |x| := fun x => by rw [abs_mul, abs_of_pos hk]
+  unfold rotIf
+  simp only [rops, decide_eq_true_eq, hd, hb, habs]
+  have e1 : (0 < k * |st.a i j|) ↔ (0 < |st.a i j|) := by
+    constructor
+    · intro h; by_contra h'; nlinarith [abs_nonneg (st.a i j)]
+    · intro h; positivity
+  have e2 : (k * |st.d j - st.d i| + k * |st.a i j| ≤ k * |st.d j - st.d i|) ↔
+      (|st.d j - st.d i| + |st.a i j| ≤ |st.d j - st.d i|) := by
+    constructor
+    · intro h; nlinarith
+    · intro h; nlinarith
+  have e3 : k * st.a i j / (k * (st.d j - st.d i)) = st.a i j / (st.d j - st.d i) := mul_div_mul_left _ _ hk0
+  have e4 : 1 / 2 * (k * (st.d j - st.d i)) / (k * st.a i j) = 1 / 2 * (st.d j - st.d i) / st.a i j := by
+    rw [mul_left_comm, mul_div_mul_left _ _ hk0]
+  simp only [e1, e2, e3, e4]
+  split
+  · exact jacobiRot_sc k i j _ _ _ st
+  · rfl
+
+theorem sweep_sc (sqrt : ℝ → ℝ) (k : ℝ) (hk : 0 < k) (st : JState ℝ) :
+    sweep (rops sqrt) (scSt k st) = scSt k (sweep (rops sqrt) st) := by
+  unfold sweep
+  apply foldl_comm
+  intro s j
+  apply foldl_comm
+  intro s' i
+  exact rotIf_sc sqrt k hk i j s'
+
+theorem norms_sc (sqrt : ℝ → ℝ) (k : ℝ) (hk : 0 < k) (st : JState ℝ) :
+    norms (rops sqrt) (scSt k st) = (k * (norms (rops sqrt) st).1, k * (norms (rops sqrt) st).2) := by
+  have habs : ∀ x : ℝ, |k * x| = k * |x| := fun x => by rw [abs_mul, abs_of_pos hk]
+  have inner : ∀ (l : List Nat) (j : Nat) (on : ℝ),
+      l.foldl (fun on i => on + (rops sqrt).abs ((scSt k st).a i j)) (k * on)
+        = k * l.foldl (fun on i => on + (rops sqrt).abs (st.a i j)) on := by
+    intro l j
+    induction l with
+    | nil => intro on; rfl
+    | cons x t ih =>
+      intro on
+      simp only [List.foldl_cons]
+      rw [← ih]
+      congr 1
+      show k * on + |k * st.a x j| = k * (on + |st.a x j|)
+      rw [habs]; ring
+  have outer : ∀ (l : List Nat) (acc : ℝ × ℝ),
+      l.foldl (fun (acc : ℝ × ℝ) j =>
+          (acc.1 + (rops sqrt).abs ((scSt k st).d j),
+           (List.range j).foldl (fun on i => on + (rops sqrt).abs ((scSt k st).a i j)) acc.2)) (k * acc.1, k * acc.2)
+        = (k * (l.foldl (fun (acc : ℝ × ℝ) j =>
+          (acc.1 + (rops sqrt).abs (st.d j),
+           (List.range j).foldl (fun on i => on + (rops sqrt).abs (st.a i j)) acc.2)) acc).1,
+           k * (l.foldl (fun (acc : ℝ × ℝ) j =>
+          (acc.1 + (rops sqrt).abs (st.d j),
+           (List.range j).foldl (fun on i => on + (rops sqrt).abs (st.a i j)) acc.2)) acc).2) := by
+    intro l
+    induction l with
+    | nil => intro acc; rfl
+    | cons x t ih =>
+      intro acc
+      simp only [List.foldl_cons]
+      rw [← ih]
+      congr 2
+      · show k * acc.1 + |k * st.d x| = k * (acc.1 + |st.d x|)
+        rw [habs]; ring
+      · exact inner _ _ _
+  have := outer (List.range 4) (0, 0)
+  simp only [mul_zero] at this
+  exact this
+
+
+theorem jacobiLoop_sc (sqrt : ℝ → ℝ) (k : ℝ) (hk : 0 < k) (fuel : Nat) (st : JState ℝ) :
+    jacobiLoop (rops sqrt) fuel (scSt k st) = (jacobiLoop (rops sqrt) fuel st).map (scSt k) := by
+  induction fuel generalizing st with
+  | zero => rfl
+  | succ n ih =>
+    unfold jacobiLoop
+    simp only [norms_sc sqrt k hk]
+    have e : (rops sqrt).le (k * (norms (rops sqrt) st).2) ((rops sqrt).eps * (k * (norms (rops sqrt) st).1))
+        = (rops sqrt).le (norms (rops sqrt) st).2 ((rops sqrt).eps * (norms (rops sqrt) st).1) := by
+      show decide _ = decide _
+      apply decide_eq_decide.mpr
+      rw [mul_left_comm]
+      exact mul_le_mul_iff_right₀ hk
+    rw [e]
+    split
+    · rfl
+    · rw [sweep_sc sqrt k hk, ih]
+
+theorem sortEig_sc (sqrt : ℝ → ℝ) (k : ℝ) (hk : 0 < k) (st : JState ℝ) :
+    sortEig (rops sqrt) (scSt k st) = scSt k (sortEig (rops sqrt) st) := by
+  unfold sortEig
+  apply foldl_comm
+  intro s j
+  have sel : ∀ (l : List Nat) (kd : Nat × ℝ),
+      l.foldl (fun (kd : Nat × ℝ) i => if (rops sqrt).lt ((scSt k s).d i) kd.2 then (i, (scSt k s).d i) else kd) (kd.1, k * kd.2)
+        = ((l.foldl (fun (kd : Nat × ℝ) i => if (rops sqrt).lt (s.d i) kd.2 then (i, s.d i) else kd) kd).1,
+           k * (l.foldl (fun (kd : Nat × ℝ) i => if (rops sqrt).lt (s.d i) kd.2 then (i, s.d i) else kd) kd).2) := by
+    intro l
+    induction l with
+    | nil => intro kd; rfl
+    | cons x t ih =>
+      intro kd
+      simp only [List.foldl_cons]
+      have e : (rops sqrt).lt ((scSt k s).d x) (k * kd.2) = (rops sqrt).lt (s.d x) kd.2 := by
+        show decide (k * s.d x < k * kd.2) = decide (s.d x < kd.2)
+        exact decide_eq_decide.mpr (mul_lt_mul_iff_right₀ hk)
+      rw [e]
+      split
+      · exact ih (x, s.d x)
+      · exact ih kd
+  have := sel (List.range' (j + 1) (4 - (j + 1))) (j, s.d j)
+  simp only
+  rw [show ((j, (scSt k s).d j) : Nat × ℝ) = (j, k * s.d j) from rfl, this]
+  simp only
+  split
+  · simp only [scSt, JState.mk.injEq, true_and]
+    rw [updV_sc k s.d _ (s.d j) ((scV k s.d).f j) rfl, updV_sc k _ j _ _ rfl]
+  · rfl
+
+
+def scS (k : ℝ) (n : S4 ℝ) : S4 ℝ :=
+  ⟨k * n.n00, k * n.n01, k * n.n02, k * n.n03, k * n.n11, k * n.n12, k * n.n13, k * n.n22, k * n.n23, k * n.n33⟩
+
+/-- the same points in another unit of length -/
+def scP (k : ℝ) (p : P3 ℝ) : P3 ℝ := ⟨k * p.x, k * p.y, k * p.z⟩
+
+theorem matOfS4_sc (k : ℝ) (n : S4 ℝ) : matOfS4 (scS k n) = scM k (matOfS4 n) := by
+  simp only [matOfS4, scM, Mat.mk.injEq]
+  funext r c
+  split <;> simp [scS]
+
+theorem jacobi_sc (sqrt : ℝ → ℝ) (k : ℝ) (hk : 0 < k) (n : S4 ℝ) (m : Nat) :
+    jacobi (rops sqrt) (scS k n) m = (jacobi (rops sqrt) n m).map (scSt k) := by
+  unfold jacobi
+  simp only [matOfS4_sc]
+  have := jacobiLoop_sc sqrt k hk m
+    { a := matOfS4 n, v := ⟨fun r c => if r = c then 1 else 0⟩, d := ⟨fun j => matOfS4 n j j⟩ }
+  simp only [scSt] at this
+  rw [show (⟨fun j => (scM k (matOfS4 n)) j j⟩ : Vec ℝ) = scV k ⟨fun j => matOfS4 n j j⟩ from rfl, this]
+  simp only [Option.map_map]
+  congr 1
+  funext st
+  exact sortEig_sc sqrt k hk st
+
+theorem corr_sc (k : ℝ) (l : List (P3 ℝ × P3 ℝ)) (a : Acc9 ℝ) :
+    qformOf ((l.map fun p => (scP k p.1, scP k p.2)).foldl corrStep
+      ⟨k * k * a.xxyx, k * k * a.xxyy, k * k * a.xxyz, k * k * a.xyyx, k * k * a.xyyy, k * k * a.xyyz, k * k * a.xzyx, k * k * a.xzyy, k * k * a.xzyz⟩)
+      = scS (k * k) (qformOf (l.foldl corrStep a)) := by
+  induction l generalizing a with
+  | nil => simp only [List.map_nil, List.foldl_nil, qformOf, scS, S4.mk.injEq]; refine ⟨?_, ?_, ?_, ?_, ?_, ?_, ?_, ?_, ?_, ?_⟩ <;> ring
+  | cons p t ih =>
+    simp only [List.map_cons, List.foldl_cons]
+    rw [← ih]
+    congr 2
+    simp only [corrStep, scP, Acc9.mk.injEq]
+    refine ⟨?_, ?_, ?_, ?_, ?_, ?_, ?_, ?_, ?_⟩ <;> ring
+
+theorem qform_sc (k : ℝ) (src tgt : List (P3 ℝ)) :
+    qform (src.map (scP k)) (tgt.map (scP k)) = (qform src tgt).map (scS (k * k)) := by
+  unfold qform
+  simp only [List.length_map]
+  split
+  · simp only [Option.map_some, Option.some.injEq, qformPairs, corr]
+    have := corr_sc k (src.zip tgt) acc0
+    simp only [acc0, mul_zero] at this
+    rw [List.zip_map]
+    exact this
+  · rfl
+
+/-- **qtrfit_scale_invariant**: the fit does not depend on the unit of length — for every `k > 0`, `qtrfit` on the
+    point sets multiplied by `k` returns the SAME quaternion and the SAME matrix (all inputs, all sweep limits; every
+    comparison `jacobi` makes is homogeneous, in particular the convergence test `onorm <= 1e-12 * dnorm`) -/
+theorem qtrfit_scale_invariant (sqrt : ℝ → ℝ) (k : ℝ) (hk : 0 < k) (src tgt : List (P3 ℝ)) (m : Nat) :
+    qtrfit (rops sqrt) (src.map (scP k)) (tgt.map (scP k)) m = qtrfit (rops sqrt) src tgt m := by
+  unfold qtrfit
+  rw [qform_sc]
+  cases qform src tgt with
+  | none => rfl
+  | some n =>
+    simp only [Option.map_some]
+    rw [jacobi_sc sqrt (k * k) (by positivity)]
+    cases jacobi (rops sqrt) n m with
+    | none => rfl
+    | some st => rfl
+
+
+/-! fit_fragment in another unit of length -/
+
+theorem sqrt_scale (sqrt : ℝ → ℝ) (hs : IsSqrt sqrt) (k x : ℝ) (hk : 0 ≤ k) (hx : 0 ≤ x) : sqrt (k * k * x) = k * sqrt x := by
+  obtain ⟨h1, h2⟩ := hs x hx
+  obtain ⟨h3, h4⟩ := hs (k * k * x) (by positivity)
+  generalize sqrt (k * k * x) = b at h3 h4 ⊢
+  generalize sqrt x = a at h1 h2 ⊢
+  have h5 : 0 ≤ k * a := mul_nonneg hk h1
+  have h6 : (b - k * a) * (b + k * a) = 0 := by
+    have : (k * a) * (k * a) = k * k * x := by rw [← h2]; ring
+    linear_combination h4 - this
+  rcases mul_eq_zero.mp h6 with h | h
+  · linarith
+  · have e1 : b = 0 := by linarith
+    have e2 : k * a = 0 := by linarith
+    rw [e1, e2]
+
+theorem centroid_foldl_sc (k : ℝ) (pts : List (P3 ℝ)) (a : P3 ℝ × ℝ) :
+    (pts.map (scP k)).foldl (fun (a : P3 ℝ × ℝ) p => ((⟨a.1.x + p.x, a.1.y + p.y, a.1.z + p.z⟩ : P3 ℝ), a.2 + 1)) (scP k a.1, a.2)
+      = (scP k (pts.foldl (fun (a : P3 ℝ × ℝ) p => ((⟨a.1.x + p.x, a.1.y + p.y, a.1.z + p.z⟩ : P3 ℝ), a.2 + 1)) a).1,
+         (pts.foldl (fun (a : P3 ℝ × ℝ) p => ((⟨a.1.x + p.x, a.1.y + p.y, a.1.z + p.z⟩ : P3 ℝ), a.2 + 1)) a).2) := by
+  induction pts generalizing a with
+  | nil => rfl
+  | cons p t ih =>
+    simp only [List.map_cons, List.foldl_cons]
+    rw [← ih]
+    congr 2
+    simp only [scP, P3.mk.injEq]
+    refine ⟨?_, ?_, ?_⟩ <;> ring
+
+theorem centroid_sc (isZero : ℝ → Bool) (k : ℝ) (pts : List (P3 ℝ)) :
+    centroid isZero (pts.map (scP k)) = (centroid isZero pts).map (scP k) := by
+  unfold centroid
+  have := centroid_foldl_sc k pts (⟨0, 0, 0⟩, 0)
+  simp only [scP, mul_zero] at this
+  simp only [this]
+  split
+  · rfl
+  · simp only [Option.map_some, Option.some.injEq, scP, P3.mk.injEq]
+    refine ⟨?_, ?_, ?_⟩ <;> ring
+
+theorem minusVect_sc (k : ℝ) (l : List (P3 ℝ)) (v : P3 ℝ) : minusVect (l.map (scP k)) (scP k v) = (minusVect l v).map (scP k) := by
+  simp only [minusVect, List.map_map]
+  apply List.map_congr_left
+  intro p _
+  simp only [Function.comp, scP, P3.mk.injEq]
+  refine ⟨?_, ?_, ?_⟩ <;> ring
+
+theorem plusVect_sc (k : ℝ) (l : List (P3 ℝ)) (v : P3 ℝ) : plusVect (l.map (scP k)) (scP k v) = (plusVect l v).map (scP k) := by
+  simp only [plusVect, List.map_map]
+  apply List.map_congr_left
+  intro p _
+  simp only [Function.comp, scP, P3.mk.injEq]
+  refine ⟨?_, ?_, ?_⟩ <;> ring
+
+theorem rotmol_sc (k : ℝ) (l : List (P3 ℝ)) (u : M3 ℝ) : rotmol (l.map (scP k)) u = (rotmol l u).map (scP k) := by
+  simp only [rotmol, List.map_map]
+  apply List.map_congr_left
+  intro p _
+  simp only [Function.comp, scP, rotPoint, P3.mk.injEq]
+  refine ⟨?_, ?_, ?_⟩ <;> ring
+
+theorem sum_map_scale {α : Type} (c : ℝ) (f g : α → ℝ) (l : List α) (h : ∀ x, g x = c * f x) :
+    (l.map g).sum = c * (l.map f).sum := by
+  induction l with
+  | nil => simp
+  | cons x t ih => simp only [List.map_cons, List.sum_cons, ih, h]; ring
+
+theorem ssd_sc (k : ℝ) (v w : List (P3 ℝ)) : ssd ((v.map (scP k)).zip (w.map (scP k))) = k * k * ssd (v.zip w) := by
+  rw [ssd_eq_sum, ssd_eq_sum, List.zip_map, List.map_map]
+  apply sum_map_scale
+  intro p
+  simp only [Function.comp, Prod.map, scP, dist2]
+  ring
+
+theorem rmsd_sc (sqrt : ℝ → ℝ) (hs : IsSqrt sqrt) (k : ℝ) (hk : 0 ≤ k) (v w : List (P3 ℝ)) :
+    rmsd sqrt (v.map (scP k)) (w.map (scP k)) = (rmsd sqrt v w).map (k * ·) := by
+  cases v with
+  | nil => rfl
+  | cons p t =>
+    simp only [rmsd, List.map_cons, Option.map_some, Option.some.injEq]
+    have := ssd_sc k (p :: t) w
+    simp only [List.map_cons] at this
+    rw [this, lenK_eq, lenK_eq]
+    simp only [List.length_cons, List.length_map]
+    rw [mul_div_assoc]
+    apply sqrt_scale sqrt hs k _ hk
+    exact div_nonneg (ssd_nonneg _) (by positivity)
+
+/-- **fit_fragment_scale_equivariant**: `fit_fragment` in another unit of length (every coordinate multiplied by
+    `k > 0`) returns the same placement in that unit and `k` times the RMSD — for any rotation finder that is itself
+    independent of the unit (`qtrfit` is: `qtrfit_scale_invariant`). This is why the check may judge every deviation
+    relative to the size of the point set, from 1e-10 to 1e+6. -/
+theorem fit_fragment_scale_equivariant (isZero : ℝ → Bool) (sqrt : ℝ → ℝ) (hs : IsSqrt sqrt)
+    (fit : List (P3 ℝ) → List (P3 ℝ) → Option (M3 ℝ)) (k : ℝ) (hk : 0 < k)
+    (hfit : ∀ p q, fit (p.map (scP k)) (q.map (scP k)) = fit p q) (frag src tgt : List (P3 ℝ)) :
+    fitFragment isZero sqrt fit (frag.map (scP k)) (src.map (scP k)) (tgt.map (scP k))
+      = (fitFragment isZero sqrt fit frag src tgt).map fun r => (r.1.map (scP k), k * r.2) := by
+  unfold fitFragment
+  rw [centroid_sc, centroid_sc]
+  cases centroid isZero src with
+  | none => rfl
+  | some pc =>
+    cases centroid isZero tgt with
+    | none => rfl
+    | some qc =>
+      simp only [Option.map_some]
+      rw [minusVect_sc, minusVect_sc, minusVect_sc, hfit]
+      cases fit (minusVect src pc) (minusVect tgt qc) with
+      | none => rfl
+      | some u =>
+        simp only
+        rw [rotmol_sc, rotmol_sc, plusVect_sc, rmsd_sc sqrt hs k hk.le]
+        cases rmsd sqrt (minusVect tgt qc) (rotmol (minusVect src pc) u) with
+        | none => rfl
+        | some r => rfl
+
+/-- the rotation finder `fit_fragment` uses: `qtrfit(p, q, 30)[1]` -/
+noncomputable def fitR (sqrt : ℝ → ℝ) (p q : List (P3 ℝ)) : Option (M3 ℝ) := (qtrfit (rops sqrt) p q 30).map (·.2)
+
+theorem fit_fragment_unit_free (isZero : ℝ → Bool) (sqrt : ℝ → ℝ) (hs : IsSqrt sqrt) (k : ℝ) (hk : 0 < k)
+    (frag src tgt : List (P3 ℝ)) :
+    fitFragment isZero sqrt (fitR sqrt) (frag.map (scP k)) (src.map (scP k)) (tgt.map (scP k))
+      = (fitFragment isZero sqrt (fitR sqrt) frag src tgt).map fun r => (r.1.map (scP k), k * r.2) :=
+  fit_fragment_scale_equivariant isZero sqrt hs (fitR sqrt) k hk
+    (fun p q => by simp only [fitR, qtrfit_scale_invariant sqrt k hk]) frag src tgt
+
+/-- **fit_fragment_rigid**: for ALL inputs on which it returns, `fit_fragment` moves the fragment by a proper rigid
+    motion `p ↦ R(p − p̄) + t̄` (`R` proper, `p̄`/`t̄` the centroids of the source/target atoms) -/
+theorem fit_fragment_rigid (isZero : ℝ → Bool) (sqrt : ℝ → ℝ) (hs : IsSqrt sqrt) (frag src tgt out : List (P3 ℝ)) (rms : ℝ)
+    (h : fitFragment isZero sqrt (fitR sqrt) frag src tgt = some (out, rms)) :
+    ∃ pc qc r, centroid isZero src = some pc ∧ centroid isZero tgt = some qc ∧ IsProper r ∧
+      out = frag.map (placeSpec r pc qc) ∧ rmsd sqrt tgt (src.map (placeSpec r pc qc)) = some rms := by
+  obtain ⟨pc, qc, u, hpc, hqc, hu, hout, hrms⟩ := fit_fragment_places isZero sqrt (fitR sqrt) frag src tgt out rms h
+  refine ⟨pc, qc, transpose u, hpc, hqc, ?_, hout, hrms⟩
+  simp only [fitR, Option.map_eq_some_iff] at hu
+  obtain ⟨⟨q, u'⟩, hq, rfl⟩ := hu
+  have hp := (qtrfit_proper sqrt hs _ _ 30 q u' hq).2
+  obtain ⟨h1, h2, h3⟩ := hp
+  refine ⟨h2, ?_, ?_⟩
+  · simpa [transpose] using h1
+  · rw [← h3]; simp only [det3, transpose]; ring
+
+/-- the hypothesis `IsSqrt` is met by the real square root -/
+theorem isSqrt_real : IsSqrt Real.sqrt := fun x hx => ⟨Real.sqrt_nonneg x, Real.mul_self_sqrt hx⟩
+
+example (src tgt : List (P3 ℝ)) (q : Q4 ℝ) (u : M3 ℝ) (h : qtrfit (rops Real.sqrt) src tgt 30 = some (q, u)) : IsProper u :=
+  (qtrfit_proper Real.sqrt isSqrt_real src tgt 30 q u h).2
+
+example (src tgt : List (P3 ℝ)) : qtrfit (rops Real.sqrt) (src.map (scP (1 / 10000000000))) (tgt.map (scP (1 / 10000000000))) 30
+    = qtrfit (rops Real.sqrt) src tgt 30 := qtrfit_scale_invariant Real.sqrt _ (by norm_num) src tgt 30
+
 /-! ### the code as found (snapshot b553572): witness of the two defects, exact arithmetic over `Rat`
 
   Four atoms whose centroid is (5/2, 1/2, 1/2); the targets are the atoms turned by 90° about z and shifted by
@@ -478,6 +1051,208 @@ def octaTgt : List (P3 Rat) := octaSrc.map fun p => ⟨p.z, p.x, p.y⟩
 /-- on this pair the quadratic form has a zero diagonal and the code before fixes/C20_3 raised (model: `none`) -/
 theorem jacobi_old_fails_on :
     (qform octaSrc octaTgt).map (fun n => (jacobiOld opsQ n 30).isSome) = some false := by decide +kernel
+
+/-! ## the caller's objects: shared rows, in-place changes, histories
+
+  `fitFragment` is a function of three lists of numbers. The code works on lists of references to rows, which the
+  caller may share between the fragment and the source list, change in place between two fits, and which `rotmol`
+  changes in place. `fitFragmentH` (ShelxModel/C20.lean) follows `fit_fragment` on such a heap statement by statement; the
+  theorems say that the difference cannot be observed: the result is `fitFragment` of the numbers at the call
+  (`fitFragmentH_eq`), no row that existed is written (`fitFragmentH_frame`), and over any history of in-place changes and
+  fits every fit sees exactly the current numbers (`history_reads_current`). A version that keeps anything from an
+  earlier call and trusts it later has no model of this form. -/
+
+section heap
+variable {K : Type} [Add K] [Sub K] [Mul K] [Div K] [OfNat K 0] [OfNat K 1]
+
+/-- **fitFragmentH_eq**: whatever rows the caller's three lists share (with each other or within themselves), what
+    `fit_fragment` returns is `fitFragment` of the numbers those rows hold at the call. `hf hs ht`: the lists refer to
+    rows that exist (a dangling reference cannot occur in Python). Holds for every number type (no law of arithmetic
+    is used), hence for the floats the code computes with. -/
+theorem fitFragmentH_eq (isZero : K → Bool) (sqrt : K → K) (fit : List (P3 K) → List (P3 K) → Option (M3 K))
+    (h : Heap K) (frag src tgt : List Nat) (hf : Below frag h.next) (hs : Below src h.next) (ht : Below tgt h.next) :
+    (fitFragmentH isZero sqrt fit h frag src tgt).map (fun r => (r.1.read r.2.1, r.2.2))
+      = fitFragment isZero sqrt fit (h.read frag) (h.read src) (h.read tgt) := by
+  unfold fitFragmentH fitFragment
+  rcases hA1 : h.alloc (h.read src) with ⟨h1, l1⟩
+  obtain ⟨n1, b1, ab1, nd1, rd1, old1, -⟩ := alloc_spec _ _ _ _ hA1
+  simp only []
+  rw [old1 tgt ht]
+  rcases hA2 : h1.alloc (h.read tgt) with ⟨h2, l2⟩
+  obtain ⟨n2, b2, ab2, nd2, rd2, old2, -⟩ := alloc_spec _ _ _ _ hA2
+  simp only []
+  rw [old2 l1 b1, rd1, rd2]
+  cases hpc : centroid isZero (h.read src) with
+  | none => rfl
+  | some pc =>
+    cases hqc : centroid isZero (h.read tgt) with
+    | none => rfl
+    | some qc =>
+      simp only []
+      rcases hA3 : h2.alloc (minusVect (h.read src) pc) with ⟨h3, l3⟩
+      obtain ⟨n3, b3, ab3, nd3, rd3, old3, -⟩ := alloc_spec _ _ _ _ hA3
+      simp only []
+      rw [old3 l2 b2, rd2]
+      rcases hA4 : h3.alloc (minusVect (h.read tgt) qc) with ⟨h4, l4⟩
+      obtain ⟨n4, b4, ab4, nd4, rd4, old4, -⟩ := alloc_spec _ _ _ _ hA4
+      simp only []
+      rw [old4 l3 b3, rd3, rd4]
+      cases hu : fit (minusVect (h.read src) pc) (minusVect (h.read tgt) qc) with
+      | none => rfl
+      | some u =>
+        simp only []
+        have le1 : h.next ≤ h1.next := by omega
+        have le2 : h1.next ≤ h2.next := by omega
+        have le3 : h2.next ≤ h3.next := by omega
+        have le4 : h3.next ≤ h4.next := by omega
+        have rs4 : ∀ l, Below l h.next → h4.read l = h.read l := fun l hl => by
+          rw [old4 _ (below_mono hl (by omega)), old3 _ (below_mono hl (by omega)), old2 _ (below_mono hl (by omega)), old1 _ hl]
+        rw [rs4 src hs]
+        rcases hA5 : h4.alloc (minusVect (h.read src) pc) with ⟨h5, l5⟩
+        obtain ⟨n5, -, -, -, -, old5, -⟩ := alloc_spec _ _ _ _ hA5
+        simp only []
+        have le5 : h4.next ≤ h5.next := by omega
+        rw [old5 _ (below_mono hf (by omega)), rs4 frag hf]
+        rcases hA6 : h5.alloc (minusVect (h.read frag) pc) with ⟨h6, l6⟩
+        obtain ⟨n6, b6, ab6, nd6, rd6, old6, -⟩ := alloc_spec _ _ _ _ hA6
+        simp only []
+        have le6 : h5.next ≤ h6.next := by omega
+        rw [rotmol_read h6 l6 u nd6, rd6]
+        rcases hA7 : (h6.rotmol l6 u).alloc (plusVect (rotmol (minusVect (h.read frag) pc) u) qc) with ⟨h7, l7⟩
+        obtain ⟨n7, b7, ab7, nd7, rd7, old7, -⟩ := alloc_spec _ _ _ _ hA7
+        simp only []
+        rw [rotmol_next] at n7 ab7 old7
+        -- the rows of the centred source (l3) lie below those of the centred target (l4), of the fragment copy (l6)
+        -- and of the result (l7)
+        have d43 : ∀ a ∈ l4, a ∉ l3 := fun a ha hm => by have := ab4 a ha; have := b3 a hm; omega
+        have d73 : ∀ a ∈ l7, a ∉ l3 := fun a ha hm => by have := ab7 a ha; have := b3 a hm; omega
+        have d36 : ∀ a ∈ l3, a ∉ l6 := fun a ha hm => by have := ab6 a hm; have := b3 a ha; omega
+        have d46 : ∀ a ∈ l4, a ∉ l6 := fun a ha hm => by have := ab6 a hm; have := b4 a ha; omega
+        have r3 : h7.read l3 = minusVect (h.read src) pc := by
+          rw [old7 _ (below_mono b3 (by omega)), read_rotmol_disjoint _ _ _ _ d36, old6 _ (below_mono b3 (by omega)),
+            old5 _ (below_mono b3 (by omega)), old4 _ b3, rd3]
+        have r4 : h7.read l4 = minusVect (h.read tgt) qc := by
+          rw [old7 _ (below_mono b4 (by omega)), read_rotmol_disjoint _ _ _ _ d46, old6 _ (below_mono b4 (by omega)),
+            old5 _ b4, rd4]
+        rw [read_rotmol_disjoint _ _ _ _ d43, r4, rotmol_read h7 l3 u nd3, r3]
+        cases hr : rmsd sqrt (minusVect (h.read tgt) qc) (rotmol (minusVect (h.read src) pc) u) with
+        | none => rfl
+        | some rms =>
+          simp only [Option.map_some, Option.some.injEq, Prod.mk.injEq, and_true]
+          rw [read_rotmol_disjoint _ _ _ _ d73, rd7]
+
+/-- **fitFragmentH_frame**: `fit_fragment` writes to no row that existed before the call (so the caller's fragment,
+    source and target lists hold the same numbers afterwards, whatever they share), and the list it returns consists of
+    new rows. -/
+theorem fitFragmentH_frame (isZero : K → Bool) (sqrt : K → K) (fit : List (P3 K) → List (P3 K) → Option (M3 K))
+    (h : Heap K) (frag src tgt : List Nat) :
+    ∀ r, fitFragmentH isZero sqrt fit h frag src tgt = some r →
+      Ext h r.1 ∧ (∀ a ∈ r.2.1, h.next ≤ a) ∧ Below r.2.1 r.1.next := by
+  unfold fitFragmentH
+  rcases hA1 : h.alloc (h.read src) with ⟨h1, l1⟩
+  have x1 := ext_alloc h _ _ _ _ hA1 (ext_refl h)
+  simp only []
+  rcases hA2 : h1.alloc (h1.read tgt) with ⟨h2, l2⟩
+  have x2 := ext_alloc h _ _ _ _ hA2 x1
+  simp only []
+  split
+  · rcases hA3 : h2.alloc (minusVect (h2.read l1) _) with ⟨h3, l3⟩
+    have x3 := ext_alloc h _ _ _ _ hA3 x2
+    obtain ⟨-, -, ab3, -, -, -, -⟩ := alloc_spec _ _ _ _ hA3
+    simp only []
+    rcases hA4 : h3.alloc (minusVect (h3.read l2) _) with ⟨h4, l4⟩
+    have x4 := ext_alloc h _ _ _ _ hA4 x3
+    simp only []
+    split
+    · intro r hr; exact absurd hr (by simp)
+    · rename_i u _
+      rcases hA5 : h4.alloc (minusVect (h4.read src) _) with ⟨h5, l5⟩
+      have x5 := ext_alloc h _ _ _ _ hA5 x4
+      simp only []
+      rcases hA6 : h5.alloc (minusVect (h5.read frag) _) with ⟨h6, l6⟩
+      have x6 := ext_alloc h _ _ _ _ hA6 x5
+      obtain ⟨-, -, ab6, -, -, -, -⟩ := alloc_spec _ _ _ _ hA6
+      simp only []
+      have x6' := ext_rotmol h h6 l6 u (fun a ha => by have := ab6 a ha; have := x5.1; omega) x6
+      rcases hA7 : (h6.rotmol l6 u).alloc (plusVect ((h6.rotmol l6 u).read l6) _) with ⟨h7, l7⟩
+      have x7 := ext_alloc h _ _ _ _ hA7 x6'
+      obtain ⟨-, b7, ab7, -, -, -, -⟩ := alloc_spec _ _ _ _ hA7
+      simp only []
+      have x8 := ext_rotmol h h7 l3 u (fun a ha => by have := ab3 a ha; have := x2.1; omega) x7
+      split
+      · intro r hr; exact absurd hr (by simp)
+      · intro r hr
+        simp only [Option.some.injEq] at hr
+        subst hr
+        refine ⟨x8, fun a ha => ?_, ?_⟩
+        · have := ab7 a ha; rw [rotmol_next] at this; have := x6.1; omega
+        · show Below l7 (h7.rotmol l3 u).next
+          rw [rotmol_next]; exact b7
+  · intro r hr; exact absurd hr (by simp)
+
+/-- the caller refers to rows that existed when the history began (`n` of them) -/
+def StepOk (n : Nat) : Step K → Prop
+  | .write a _ => a < n
+  | .fit f s g => Below f n ∧ Below s n ∧ Below g n
+
+/-- **history_reads_current**: over ANY history of assignments to the caller's rows and fits on lists of those rows
+    (sharing rows in any way), every `fit_fragment` returns `fitFragment` of the numbers the rows hold at that moment:
+    nothing is remembered from earlier calls, every in-place change is seen, and the fits change no row of the caller. -/
+theorem history_reads_current (isZero : K → Bool) (sqrt : K → K) (fit : List (P3 K) → List (P3 K) → Option (M3 K))
+    (steps : List (Step K)) (h : Heap K) (c : Nat → P3 K) (n : Nat) (hn : n ≤ h.next) (hc : ∀ a, a < n → h.cell a = c a)
+    (hok : ∀ st ∈ steps, StepOk n st) :
+    runH isZero sqrt fit h steps = specH isZero sqrt fit c steps := by
+  induction steps generalizing h c with
+  | nil => rfl
+  | cons st t ih =>
+    have hok' : ∀ st ∈ t, StepOk n st := fun s hs => hok s (List.mem_cons_of_mem _ hs)
+    cases st with
+    | write a p =>
+      simp only [runH, specH]
+      apply ih _ _ (by rw [write_next]; exact hn) _ hok'
+      intro a' ha'
+      simp only [Heap.write]
+      split
+      · rfl
+      · exact hc a' ha'
+    | fit f s g =>
+      obtain ⟨bf, bs, bg⟩ : Below f n ∧ Below s n ∧ Below g n := hok _ (List.mem_cons_self ..)
+      have rd : ∀ l, Below l n → h.read l = l.map c := fun l hl => List.map_congr_left (fun a ha => hc a (hl a ha))
+      have e := fitFragmentH_eq isZero sqrt fit h f s g (below_mono bf hn) (below_mono bs hn) (below_mono bg hn)
+      rw [rd f bf, rd s bs, rd g bg] at e
+      simp only [runH, specH]
+      cases hr : fitFragmentH isZero sqrt fit h f s g with
+      | none =>
+        rw [hr] at e
+        simp only [Option.map_none] at e
+        rw [← e]
+        simp only [List.cons.injEq, true_and]
+        exact ih h c hn hc hok'
+      | some r =>
+        rw [hr] at e
+        simp only [Option.map_some] at e
+        rw [← e]
+        simp only [List.cons.injEq, true_and]
+        obtain ⟨x, -, -⟩ := fitFragmentH_frame isZero sqrt fit h f s g r hr
+        exact ih r.1 c (Nat.le_trans hn x.1) (fun a ha => by rw [x.2 a (Nat.lt_of_lt_of_le ha hn)]; exact hc a ha) hok'
+
+end heap
+
+/-- a history that meets the hypotheses: the witness atoms `wSrc` are rows 0–3 (fragment AND source list: the same rows),
+    their targets rows 4–7; fit, move atom 0 in place, fit again — the second fit sees the moved atom -/
+def wHeap : Heap Rat := ⟨fun a => ((wSrc ++ wTgt)[a]?).getD ⟨0, 0, 0⟩, 8⟩
+def wHist : List (Step Rat) := [.fit [0, 1, 2, 3] [0, 1, 2, 3] [4, 5, 6, 7], .write 0 ⟨3, 0, 0⟩, .fit [0, 1, 2, 3] [0, 1, 2, 3] [4, 5, 6, 7]]
+
+theorem wHist_ok : ∀ st ∈ wHist, StepOk 8 st := by
+  intro st hst
+  simp only [wHist, List.mem_cons, List.not_mem_nil, or_false] at hst
+  rcases hst with rfl | rfl | rfl <;> simp [StepOk, Below]
+
+example : runH isZeroQ id fit90 wHeap wHist = specH isZeroQ id fit90 wHeap.cell wHist :=
+  history_reads_current isZeroQ id fit90 wHist wHeap wHeap.cell 8 (Nat.le_refl _) (fun _ _ => rfl) wHist_ok
+
+/-- … and what comes out: deviation 0 first, then (atom 0 moved by 1 along x) a mean-square deviation of 3/16 -/
+theorem wHist_result : (runH isZeroQ id fit90 wHeap wHist).map (fun o => o.map (·.2)) = [some 0, some (3/16)] := by decide +kernel
 
 /-! ## the tie to the traced source (`ShelxModel/Extracted/C20Src.lean`, regenerated on every run)
 
